@@ -804,6 +804,202 @@ func genC03(repo string) (string, error) {
 		}
 	}
 	fmt.Fprintf(&sb, "def trivialMoveExpr : String := %s\n", strconv.Quote(tmExpr))
+
+	// ---- round 8: PickL0Compaction's level-1 input collection, GetFieldData's branch nesting, the
+	// slot loop header of the down-sampling merge, the error branches of the merge read path
+	pick := FindFunc(vv, "version", "PickL0Compaction")
+	fmt.Fprintf(&sb, "\n/-- `PickL0Compaction`: how the level-1 inputs are collected (map creation, loops, map stores, appends; source order) -/\n")
+	fmt.Fprintf(&sb, "def pickL0Steps : List String := %s\n", LeanStrList(collectSteps(pick)))
+	_, fr, err := ParseFile(repo, "tsdb/tblstore/metricsdata/field_reader.go")
+	if err != nil {
+		return "", err
+	}
+	fmt.Fprintf(&sb, "/-- `fieldReader.GetFieldData` / `Reset` / `Close`: every `if` as depth:condition -> last statement of its body -/\n")
+	fmt.Fprintf(&sb, "def getFieldDataIfs : List String := %s\n", LeanStrList(ifTreeRet(FindFunc(fr, "fieldReader", "GetFieldData"))))
+	fmt.Fprintf(&sb, "def fieldReaderResetIfs : List String := %s\n", LeanStrList(ifTreeRet(FindFunc(fr, "fieldReader", "Reset"))))
+	fmt.Fprintf(&sb, "def fieldReaderCloseAssigns : List String := %s\n", LeanStrList(assignsIn(FindFunc(fr, "fieldReader", "Close"), "r.")))
+	smf := FindFunc(sm, "seriesMerger", "merge")
+	fmt.Fprintf(&sb, "/-- `seriesMerger.merge`: the reader calls in source order (`GetFieldData` per target field, `Close` for every reader at the end) -/\n")
+	var readerCalls []string
+	for _, cl := range CallSeq(smf) {
+		if strings.HasPrefix(cl, "reader.") {
+			readerCalls = append(readerCalls, cl)
+		}
+	}
+	fmt.Fprintf(&sb, "def seriesMergerReaderCalls : List String := %s\n", LeanStrList(readerCalls))
+	fmt.Fprintf(&sb, "def mergeLoopIfs : List String := %s\n", LeanStrList(ifTreeRet(FindFunc(mg, "merger", "Merge"))))
+	// the slot loop of DownSamplingMultiSeriesInto
+	slotHeader, slotVarTy := "", ""
+	if multi != nil {
+		ast.Inspect(multi.Body, func(n ast.Node) bool {
+			if fs, ok := n.(*ast.ForStmt); ok && fs.Init != nil && slotHeader == "" && strings.Contains(exprText(fs.Cond), "EndTime") {
+				slotHeader = nodeText(fs.Init) + "; " + exprText(fs.Cond) + "; " + nodeText(fs.Post)
+			}
+			return true
+		})
+	}
+	if st := FindFunc(tsd, "TSDDecoder", "StartTime"); st != nil && st.Type.Results != nil && len(st.Type.Results.List) == 1 {
+		slotVarTy = exprText(st.Type.Results.List[0].Type)
+	}
+	wraps := strings.HasPrefix(slotHeader, "movingSourceSlot := decoder.StartTime();") && slotVarTy == "uint16"
+	fmt.Fprintf(&sb, "\n/-- the loop over the slots of one decoder in `DownSamplingMultiSeriesInto`: header, the type `StartTime()`\nreturns (= type of the loop variable when it is initialised from it), and whether the loop variable is a `uint16` -/\n")
+	fmt.Fprintf(&sb, "def slotLoopHeader : String := %s\n", strconv.Quote(slotHeader))
+	fmt.Fprintf(&sb, "def slotLoopStartType : String := %s\n", strconv.Quote(slotVarTy))
+	fmt.Fprintf(&sb, "def slotLoopWraps : Bool := %v\n", wraps)
+	// error branches of the merge read path
+	fmt.Fprintf(&sb, "\n/-- error branches of the merge read path: `nextContainer` (top-level statements, an `if` with the last\nstatement of its body), `scan`, `newDataScanner`, `prepare`, `Merge` (every `if` as depth:condition -> last statement) -/\n")
+	fmt.Fprintf(&sb, "def nextContainerStmts : List String := %s\n", LeanStrList(stmtHeads(FindFunc(rd, "dataScanner", "nextContainer"))))
+	fmt.Fprintf(&sb, "def scanIfs : List String := %s\n", LeanStrList(ifTreeRet(scanFn)))
+	fmt.Fprintf(&sb, "def newDataScannerIfs : List String := %s\n", LeanStrList(ifTreeRet(FindFunc(rd, "", "newDataScanner"))))
+	fmt.Fprintf(&sb, "def prepareErrIfs : List String := %s\n", LeanStrList(filterContains(ifTreeRet(prep), "err")))
+	fmt.Fprintf(&sb, "def initReaderIfs : List String := %s\n", LeanStrList(ifTreeRet(FindFunc(rd, "metricReader", "initReader"))))
 	_ = token.NoPos
 	return sb.String(), nil
+}
+
+// retText prints a statement for the if-tree facts: a `return` with call results abbreviated to `f(..)`,
+// any other statement by its (shortened) text.
+func retText(st ast.Stmt) string {
+	if r, ok := st.(*ast.ReturnStmt); ok {
+		var parts []string
+		for _, e := range r.Results {
+			if ce, ok := e.(*ast.CallExpr); ok {
+				parts = append(parts, exprText(ce.Fun)+"(..)")
+			} else {
+				parts = append(parts, exprText(e))
+			}
+		}
+		if len(parts) == 0 {
+			return "return"
+		}
+		return "return " + strings.Join(parts, ", ")
+	}
+	return short(nodeText(st))
+}
+
+// headText prints a top-level statement: a short assignment `lhs := ..` for long right-hand sides.
+func headText(st ast.Stmt) string {
+	t := nodeText(st)
+	if as, ok := st.(*ast.AssignStmt); ok && len(t) > 44 {
+		var l []string
+		for _, e := range as.Lhs {
+			l = append(l, exprText(e))
+		}
+		return strings.Join(l, ", ") + " " + as.Tok.String() + " .."
+	}
+	return short(t)
+}
+
+// short cuts a long statement text (error messages etc.) to its first 60 characters.
+func short(t string) string {
+	if len(t) > 60 {
+		return t[:60]
+	}
+	return t
+}
+
+// ifTreeRet lists every `if` of fd in source order as "<depth>:<init; cond> -> <last statement of its body>".
+func ifTreeRet(fd *ast.FuncDecl) []string {
+	var out []string
+	if fd == nil || fd.Body == nil {
+		return out
+	}
+	var walk func(n ast.Node, depth int)
+	walk = func(n ast.Node, depth int) {
+		ast.Inspect(n, func(m ast.Node) bool {
+			if m == nil || m == n {
+				return true
+			}
+			if is, ok := m.(*ast.IfStmt); ok {
+				cond := exprText(is.Cond)
+				if is.Init != nil {
+					cond = nodeText(is.Init) + "; " + cond
+				}
+				last := ""
+				if len(is.Body.List) > 0 {
+					last = retText(is.Body.List[len(is.Body.List)-1])
+					if _, nested := is.Body.List[len(is.Body.List)-1].(*ast.IfStmt); nested {
+						last = "if"
+					}
+					if _, nested := is.Body.List[len(is.Body.List)-1].(*ast.ForStmt); nested {
+						last = "for"
+					}
+				}
+				out = append(out, fmt.Sprintf("%d:%s -> %s", depth, cond, last))
+				walk(is.Body, depth+1)
+				if is.Else != nil {
+					out = append(out, fmt.Sprintf("%d:else", depth))
+					walk(is.Else, depth+1)
+				}
+				return false
+			}
+			return true
+		})
+	}
+	walk(fd.Body, 0)
+	return out
+}
+
+// stmtHeads lists the top-level statements of fd; an `if` as "if <cond> -> <last statement of its body>".
+func stmtHeads(fd *ast.FuncDecl) []string {
+	var out []string
+	if fd == nil || fd.Body == nil {
+		return out
+	}
+	for _, st := range fd.Body.List {
+		if is, ok := st.(*ast.IfStmt); ok {
+			cond := exprText(is.Cond)
+			if is.Init != nil {
+				cond = nodeText(is.Init) + "; " + cond
+			}
+			last := ""
+			if len(is.Body.List) > 0 {
+				last = retText(is.Body.List[len(is.Body.List)-1])
+			}
+			out = append(out, "if "+cond+" -> "+last)
+			continue
+		}
+		out = append(out, headText(st))
+	}
+	return out
+}
+
+func filterContains(xs []string, sub string) []string {
+	var out []string
+	for _, x := range xs {
+		if strings.Contains(x, sub) {
+			out = append(out, x)
+		}
+	}
+	return out
+}
+
+// collectSteps lists, in source order, the map creations, range loops, map stores and appends of fd.
+func collectSteps(fd *ast.FuncDecl) []string {
+	var out []string
+	if fd == nil || fd.Body == nil {
+		return out
+	}
+	ast.Inspect(fd.Body, func(n ast.Node) bool {
+		switch x := n.(type) {
+		case *ast.RangeStmt:
+			out = append(out, "range "+exprText(x.X))
+		case *ast.AssignStmt:
+			if len(x.Lhs) == 1 && len(x.Rhs) == 1 {
+				if ix, ok := x.Lhs[0].(*ast.IndexExpr); ok {
+					out = append(out, "store "+exprText(ix)+" = "+exprText(x.Rhs[0]))
+				}
+				if ce, ok := x.Rhs[0].(*ast.CallExpr); ok {
+					switch exprText(ce.Fun) {
+					case "make":
+						out = append(out, "make "+exprText(x.Lhs[0])+" "+exprText(ce.Args[0]))
+					case "append":
+						out = append(out, "append "+exprText(ce))
+					}
+				}
+			}
+		}
+		return true
+	})
+	return out
 }
